@@ -10,7 +10,7 @@ static const int IDX[] = { 0, 1, 15, 16, 17, 255, 256, 4095, 65535, 65536, -1, 7
 #define NIDX 12
 static const long GROW[] = { 0, 1, 16, 17, 256, 257, 65535, 65536, 65537 };
 #define NGROW 9
-static const size_t ESZ[] = { 1, 24, 1000 };
+static const size_t ESZ[] = { 1, 24, 1000, ((size_t)-1) / 16 + 5 };    /* the last one: 16 elements of it do not fit the address space */
 static const size_t INIT[] = { 0, 16, 100, 65536 };
 static const size_t AUTO[] = { 0, 1, 16 };
 static int depth;
@@ -21,7 +21,8 @@ static unsigned char pat(int idx, size_t j) { return (unsigned char)(idx * 31 + 
 
 static void run(void)
 {
-	size_t esz = ESZ[vp_choose(3, "element size")];
+	size_t esz = ESZ[vp_choose(4, "element size")];
+	int absurd = esz > ((size_t)1 << 40);
 	size_t size = INIT[vp_choose(4, "initial size")];
 	size_t autog = AUTO[vp_choose(3, "autogrow")];
 	qb_array_t *a = qb_array_create_2(size, esz, autog);
@@ -43,6 +44,11 @@ static void run(void)
 			}
 			if ((size_t)idx >= size && autog == 0) {
 				if (r != -ERANGE) vp_fail("index(%d) beyond size %zu without auto-grow returned %d, not -ERANGE", idx, size, r);
+				continue;
+			}
+			if (absurd) {
+				/* storage for a block of such elements cannot exist: the call has to fail, whatever it says */
+				if (r == 0) vp_fail("index(%d) succeeded for elements of %zu bytes: there is no room for even one block of them (returned %p)", idx, esz, p);
 				continue;
 			}
 			if (r != 0) vp_fail("index(%d) failed (%d) with size %zu autogrow %zu", idx, r, size, autog);
@@ -87,7 +93,7 @@ int main(int argc, char **argv)
 		.property = "C19", .name = "c19_array_seq", .level = "model_checking",
 		.run = run, .init = init, .batch = 2000,
 		.rule = "all histories of <= depth index/grow calls (12 boundary indices incl. -1, 65535, 65536; 9 sizes incl. 65537) for element sizes "
-			"{1,24,1000} x initial sizes {0,16,100,65536} x autogrow {0,1,16} on the real qb_array; oracle: address stability, pairwise disjoint "
+			"{1,24,1000, SIZE_MAX/16+5 (no block of them can exist: index must fail)} x initial sizes {0,16,100,65536} x autogrow {0,1,16} on the real qb_array; oracle: address stability, pairwise disjoint "
 			"storage, zero initialisation, content persistence, error codes; states = distinct (size, handed-out set), distinct = final sizes",
 		.assumptions = { "single-threaded part; interleavings are the job of c19_array_conc", NULL },
 	};
